@@ -1266,6 +1266,14 @@ fn abi_call(op: &str, s: &Sqe, m: &MemV, cx: &Ctx) -> String {
             }
             format!("call madvise addr={} len={} advice={}", s.addr, s.len, s.op_flags)
         }
+        "pollable" => {
+            // io_poll_add_prep: buf_index, off, addr must be zero, `len` holds the poll flags
+            // (only IORING_POLL_ADD_MULTI known here); a10 tags multishot requests in user_data
+            if s.opcode != simk::OP_POLL_ADD || s.flags != 0 || s.off != 0 || s.addr != 0 || s.buf_index != 0 || s.len > 1 || ((s.user_data & 1 == 1) != (s.len == 1)) {
+                return rej();
+            }
+            format!("call poll fd={} events={} multi={}", s.fd, s.op_flags, s.len)
+        }
         _ => rej(),
     }
 }
@@ -1597,6 +1605,8 @@ struct EncCase {
     file: Option<&'static AsyncFd>,
     direct: Option<&'static AsyncFd>,
     pool: Option<ReadBufPool>,
+    /// a second ring, the subject of `pollable` lines (created at the first one)
+    other: Option<(Ring, i32)>,
     ok: bool,
     left: u32,
     feats: Vec<String>,
@@ -1636,6 +1646,7 @@ impl EncCase {
             file: None,
             direct: None,
             pool: None,
+            other: None,
             ok: false,
             left: 0,
             feats: Vec::new(),
@@ -1675,6 +1686,7 @@ impl EncCase {
             file: Some(file),
             direct: None,
             pool: Some(pool),
+            other: None,
             ok: true,
             left: 0,
             feats: Vec::new(),
@@ -2619,6 +2631,26 @@ impl EncCase {
                     Err(e) => show_err(&e),
                 }), vec![], posix)
             }
+            "pollable" => {
+                let pfd = kv.nat("pfd")?;
+                if pfd >= 1 << 31 {
+                    return None;
+                }
+                if self.other.is_none() {
+                    let before: Vec<i32> = simk::with_sim(|s| s.rings.keys().copied().collect());
+                    let other = Ring::config().with_submission_queue_size(4).build().ok()?;
+                    let fd = simk::with_sim(|s| s.rings.keys().copied().find(|k| !before.contains(k)))?;
+                    self.other = Some((other, fd));
+                }
+                let (other, other_fd) = self.other.as_ref()?;
+                // EPOLLIN | EPOLLHUP | EPOLLERR | EPOLLET | EPOLLEXCLUSIVE, written out independently of a10
+                let events: u32 = 0x1 | 0x10 | 0x8 | (1 << 31) | (1 << 28);
+                let it = other.pollable(sq.clone());
+                let obj = Box::new(Iter { it: Some(it), next: |p, cx| p.poll_next(cx), late: None, canon: Box::new(unit_out) });
+                let mut b = built(obj, vec![], format!("call poll fd={pfd} events={events} multi=1"))?;
+                b.fd_alias = Some((*other_fd, pfd as i32));
+                Some(b)
+            }
             "madvise" => {
                 let (addr, len, adv) = (kv.u64("addr")?, kv.u32("len")?, kv.nat("adv")?);
                 let f = a10::mem::advise(sq, addr as usize as *mut (), len, one_of(adv as i128, &madvise_table())?);
@@ -2929,7 +2961,7 @@ fn special_err(op: &str, e: i128) -> bool {
 }
 
 fn is_multi(op: &str) -> bool {
-    matches!(op, "mread" | "mrecv" | "maccept")
+    matches!(op, "mread" | "mrecv" | "maccept" | "pollable")
 }
 
 impl EncCase {
@@ -3640,8 +3672,8 @@ fn g_newfd(rng: &mut Rng, c: &EncCase, kind: &str) -> i64 {
 
 const ERRS: [i64; 11] = [1, 2, 5, 9, 11, 13, 14, 22, 32, 104, 105];
 
-const OPS: [&str; 43] = [
-    "read", "readp", "mread", "readv", "write", "writev", "splice", "close", "dropfd", "open", "mkdir", "rename", "unlink", "fsync", "statx", "fadvise", "fallocate", "ftruncate", "socket", "bind", "listen", "connect", "sockname", "recv", "recvp", "mrecv", "recvv", "recvfrom", "recvfromv", "send", "sendto", "sendmsg", "accept", "maccept", "getsockopt", "setsockopt", "shutdown", "waitid", "sigrecv", "todirect", "tofd", "pipe", "madvise",
+const OPS: [&str; 44] = [
+    "read", "readp", "mread", "readv", "write", "writev", "splice", "close", "dropfd", "open", "mkdir", "rename", "unlink", "fsync", "statx", "fadvise", "fallocate", "ftruncate", "socket", "bind", "listen", "connect", "sockname", "recv", "recvp", "mrecv", "recvv", "recvfrom", "recvfromv", "send", "sendto", "sendmsg", "accept", "maccept", "getsockopt", "setsockopt", "shutdown", "waitid", "sigrecv", "todirect", "tofd", "pipe", "madvise", "pollable",
 ];
 
 const GET_OPTS: [&str; 19] = ["error", "keepalive", "linger", "reuseaddr", "reuseport", "type", "recvbuf", "sendbuf", "recvlowat", "sendlowat", "nodelay", "keepcnt", "keepintvl", "domain", "protocol", "acceptconn", "keepidle", "incomingcpu", "cork"];
@@ -3777,6 +3809,7 @@ impl EncCase {
             "rename" => format!("path={} path2={}", g_hexname(rng, 0, 24, false), g_hexname(rng, 0, 24, false)),
             "unlink" => format!("path={} dir={}", g_hexname(rng, 0, 24, false), rng.below(2)),
             "fsync" => format!("data={}", rng.below(2)),
+            "pollable" => format!("pfd={}", match rng.below(4) { 0 => 0, 1 => (1u64 << 31) - 1, _ => 1000 + rng.below(1000) }),
             "statx" => {
                 let sec = |rng: &mut Rng| -> i64 {
                     match rng.below(7) {
@@ -3986,6 +4019,7 @@ impl Case for EncCase {
             }
             self.settle();
             drop(self.pool.take());
+            drop(self.other.take());
             unsafe { libc::close(self.tfd) };
             drop(self.ring.take());
             drop(self.sq.take());
@@ -4007,7 +4041,7 @@ impl Comp for EncodeComp {
         "encode"
     }
     fn rule(&self) -> String {
-        "each case = a ring with a regular descriptor (number 600..999), a direct descriptor (index 0..2^31-2, obtained through to_direct_descriptor) and a splice target, then 8 op lines drawn uniformly from 43 operations (read/readp/mread/readv/write/writev/splice/close/dropfd/open/mkdir/rename/unlink/fsync/statx/fadvise/fallocate/ftruncate/socket/bind/listen/connect/sockname/recv/recvp/mrecv/recvv/recvfrom/recvfromv/send/sendto/sendmsg/accept/maccept/getsockopt/setsockopt/shutdown/waitid/sigrecv/todirect/tofd/pipe/madvise): regular x direct descriptor, offsets none/0/small/>2^32/2^64-2/2^64-1/random, lengths 0/1/64/random, every non-empty subset of each BitOr flag type, every public constant of the single-valued flag types, 1..8 vectored buffers with random capacity/initial length, all five address types (IPv4, IPv6, either-family, Unix path/abstract/unnamed, none), 19 socket options, results = success with data or an errno (1 in 7) or a value the call never returns (1 in 40); for the four operations with a synchronous fallback (sockname, pipe: 1 line in 3; getsockopt, setsockopt: 1 in 2) the line completes with the error that triggers it (EOPNOTSUPP / ENOSYS|EOPNOTSUPP / EINVAL), on regular and direct descriptors alike, and scripts the trapped system call (success with the same out-parameters as a completion, 1 in 4 an errno of its own); late=1 (1 in 5) calls every builder method again after the first poll and forces a re-issue with EINTR; plus a malformed stream (1 in 30) and real-kernel differential lines (1 in 250: the same seeded fixture through a10 on a real ring and through libc); every well-formed case is non-trivial; distinct = distinct op scripts".into()
+        "each case = a ring with a regular descriptor (number 600..999), a direct descriptor (index 0..2^31-2, obtained through to_direct_descriptor) and a splice target, then 8 op lines drawn uniformly from 44 operations (read/readp/mread/readv/write/writev/splice/close/dropfd/open/mkdir/rename/unlink/fsync/statx/fadvise/fallocate/ftruncate/socket/bind/listen/connect/sockname/recv/recvp/mrecv/recvv/recvfrom/recvfromv/send/sendto/sendmsg/accept/maccept/getsockopt/setsockopt/shutdown/waitid/sigrecv/todirect/tofd/pipe/madvise/pollable): regular x direct descriptor, offsets none/0/small/>2^32/2^64-2/2^64-1/random, lengths 0/1/64/random, every non-empty subset of each BitOr flag type, every public constant of the single-valued flag types, 1..8 vectored buffers with random capacity/initial length, all five address types (IPv4, IPv6, either-family, Unix path/abstract/unnamed, none), 19 socket options, results = success with data or an errno (1 in 7) or a value the call never returns (1 in 40); for the four operations with a synchronous fallback (sockname, pipe: 1 line in 3; getsockopt, setsockopt: 1 in 2) the line completes with the error that triggers it (EOPNOTSUPP / ENOSYS|EOPNOTSUPP / EINVAL), on regular and direct descriptors alike, and scripts the trapped system call (success with the same out-parameters as a completion, 1 in 4 an errno of its own); late=1 (1 in 5) calls every builder method again after the first poll and forces a re-issue with EINTR; plus a malformed stream (1 in 30) and real-kernel differential lines (1 in 250: the same seeded fixture through a10 on a real ring and through libc); every well-formed case is non-trivial; distinct = distinct op scripts".into()
     }
     fn gen_header(&mut self, rng: &mut Rng, id: u64, _tier: &str) -> String {
         let rfd = rng.range(600, 999);
